@@ -10,22 +10,49 @@ Driver for C17. One case = one whole operation sequence.
 * `init` = `-` or `uid:pw,uid:pw,…` users present before the first operation (hashed with `cfg.pepper`)
 * `ops`  = `;`-separated: `cu:pw:U` `ru:u` `vf:u:pw` `ex:u` `cs:u:T` `cl:u:lifetime:T` `rf:t` `is:t` `iu:u`
            `gt:t` `ar:t` / `ar:-` (no cookie) and `tk:d` (advance the clock by `d`).
-  Uids / tokens / passwords are small indices (order of first appearance in the real run); `U`/`T` are the
-  indices the harness gave to the uid / token the real code drew at that point.
+  Uids / tokens are small indices (order of first appearance in the real run); `U`/`T` are the indices the
+  harness gave to the uid / token the real code drew at that point. An index that was never issued is an unknown
+  uid / token (`900..` fixed strings, `10000 + 1000*b + c` = near-miss `c` of the real value `b`).
+  A password field `pw` is `x` + lower-case hex of the bytes handed to the real code (or, in lines written before
+  that, a decimal index into the harness's small pool). Passwords are compared as these fields: the encoding is
+  injective, so equal field = equal password. (The two spellings are never mixed in one generated line.)
 * output = per step `out/exists-bits/token-owners`, joined by `;`, then `#fmt=ok`.
 
-`pepper2 <TAB> pw <TAB> pw' <TAB> pep <TAB> pep' <TAB> impl` : `User::create(pw, pep).verify(pw', pep')`.
+`pepper2 <TAB> pw <TAB> pw' <TAB> pep <TAB> pep' <TAB> impl` : `User::create(pw, pep).verify(pw', pep')` (decimal indices).
+`hashc <TAB> pw <TAB> pep <TAB> pw'1:pep'1,pw'2:pep'2,… <TAB> impl` : `User::create(pw, pep)` once, then
+`verify(pw'i, pep'i)` for every pair; output one `0`/`1` per pair. Pepper field: `0` = none, `x<hex>` = those bytes.
 -/
 namespace Humphrey.Driver.C17
 open Humphrey Humphrey.Driver Humphrey.Auth
 
 /-- Executable hash scheme for the driver: the "hash" stores password, salt and pepper. -/
-def hsExec : HashScheme Nat Nat Nat (Nat × Nat × Nat) where
+def hsExecG (P Pep : Type) [BEq P] [BEq Pep] : HashScheme P Nat Pep (P × Nat × Pep) where
   hash p s pep := (p, s, pep)
   verify h p pep := h.1 == p && h.2.2 == pep
 
-abbrev MOp := Op Nat Nat Nat Nat
+/-- Passwords are the fields of the case line (see the header). -/
+abbrev Pw := String
+
+def hsExec : HashScheme Pw Nat Nat (Pw × Nat × Nat) := hsExecG Pw Nat
+
+abbrev MOp := Op Nat Nat Pw Nat
 abbrev MOut := Out Nat Nat
+
+def lowerHex (c : Char) : Bool := ('0' ≤ c ∧ c ≤ '9') ∨ ('a' ≤ c ∧ c ≤ 'f')
+
+/-- `x` + an even number of lower-case hex digits. -/
+def hexField (s : String) : Bool :=
+  match s.toList with
+  | 'x' :: rest => rest.length % 2 == 0 && rest.all lowerHex
+  | _ => false
+
+/-- A well-formed password field. -/
+def pwField (s : String) : Option Pw :=
+  if hexField s || s.toNat?.isSome then some s else none
+
+/-- A well-formed pepper field (`x` alone, the empty pepper, is not used: Argon2 does not tell it from none). -/
+def pepField (s : String) : Option String :=
+  if (hexField s && s != "x") || s.toNat?.isSome then some s else none
 
 inductive Item
   | op (o : MOp)
@@ -36,9 +63,9 @@ def nats (s : String) (sep : String) : Option (List Nat) :=
 
 def parseItem (s : String) : Option Item :=
   match s.splitOn ":" with
-  | ["cu", p, u] => do some (.op (.createUser (← p.toNat?) 0 (← u.toNat?)))
+  | ["cu", p, u] => do some (.op (.createUser (← pwField p) 0 (← u.toNat?)))
   | ["ru", u] => do some (.op (.removeUser (← u.toNat?)))
-  | ["vf", u, p] => do some (.op (.verify (← u.toNat?) (← p.toNat?)))
+  | ["vf", u, p] => do some (.op (.verify (← u.toNat?) (← pwField p)))
   | ["ex", u] => do some (.op (.userExists (← u.toNat?)))
   | ["cs", u, t] => do some (.op (.createSession (← u.toNat?) (← t.toNat?)))
   | ["cl", u, l, t] => do some (.op (.createSessionWithLifetime (← u.toNat?) (← l.toNat?) (← t.toNat?)))
@@ -81,7 +108,7 @@ def obsStr (ex : Nat → Bool) (owner : Nat → Option Nat) (nU nT : Nat) : Stri
     match owner t with | some u => toString u | none => "-"))
   s!"/{bits}/{owners}"
 
-abbrev MDb := Db Nat Nat (Nat × Nat × Nat)
+abbrev MDb := Db Nat Nat (Pw × Nat × Nat)
 
 def ownerM (db : MDb) (now : Nat) (t : Nat) : Option Nat :=
   match getUidByToken db t now with
@@ -99,7 +126,7 @@ def runModel (cfg : Config Nat) : MDb → Nat → Nat → Nat → List Item → 
     let (nU, nT) := bump o r.2 nU nT
     runModel cfg r.1 now nU nT rest ((outStr r.2 ++ obsStr (userExists r.1) (ownerM r.1 now) nU nT) :: acc)
 
-abbrev SState := Spec.State Nat Nat Nat
+abbrev SState := Spec.State Nat Nat Pw
 
 /-- Replay through the abstract specification. -/
 def runSpec (dl rl : Nat) : SState → Nat → Nat → Nat → List Item → List String → List String
@@ -114,12 +141,20 @@ def runSpec (dl rl : Nat) : SState → Nat → Nat → Nat → List Item → Lis
     runSpec dl rl r.1 now nU nT rest
       ((outStr r.2 ++ obsStr (fun u => (r.1.pw u).isSome) (Spec.live r.1 now) nU nT) :: acc)
 
-def parseInit (s : String) : Option (List (Nat × Nat)) :=
+def parseInit (s : String) : Option (List (Nat × Pw)) :=
   if s == "-" then some []
   else (s.splitOn ",").mapM (fun x =>
     match x.splitOn ":" with
-    | [u, p] => do some ((← u.toNat?), (← p.toNat?))
+    | [u, p] => do some ((← u.toNat?), (← pwField p))
     | _ => none)
+
+def parseTries (s : String) : Option (List (Pw × String)) :=
+  (s.splitOn ",").mapM (fun x =>
+    match x.splitOn ":" with
+    | [p, pep] => do some ((← pwField p), (← pepField pep))
+    | _ => none)
+
+def bits (l : List Bool) : String := String.ofList (l.map (fun b => if b then '1' else '0'))
 
 def seqCase (cfgS initS opsS impl : String) : Option Verdict := do
   let [pep, dl, rl, now0] ← nats cfgS "," | none
@@ -145,9 +180,19 @@ def dispatch (fn : String) (args : List String) (impl : String) : Option Verdict
     match p.toNat?, p'.toNat?, pep.toNat?, pep'.toNat? with
     | some p, some p', some pep, some pep' =>
       -- the hash contract itself: verifies iff same password and same pepper
-      let m := boolStr (hsExec.verify (hsExec.hash p 0 pep) p' pep')
+      let m := boolStr ((hsExecG Nat Nat).verify ((hsExecG Nat Nat).hash p 0 pep) p' pep')
       some { model := m, spec := some (impl == boolStr (p == p' && pep == pep')) }
     | _, _, _, _ => some { model := "BADARGS" }
+  | "hashc", [p, pep, triesS] =>
+    match pwField p, pepField pep, parseTries triesS with
+    | some p, some pep, some tries =>
+      let hs := hsExecG Pw String
+      let h := hs.hash p 0 pep
+      let m := bits (tries.map (fun (p', pep') => hs.verify h p' pep'))
+      -- the hash contract itself, pair by pair
+      let s := bits (tries.map (fun (p', pep') => p == p' && pep == pep'))
+      some { model := m, spec := some (impl == s) }
+    | _, _, _ => some { model := "BADARGS" }
   | _, _ => none
 
 end Humphrey.Driver.C17
